@@ -8,6 +8,9 @@
 #include "runtime/d_boolean.h"
 #include "runtime/d_code.h"
 #include "runtime/verif_hooks.h"
+#include "opcodes/call_unary.h"
+#include "opcodes/call_binary.h"
+#include "opcodes/call_nular.h"
 #include "runtime/sqfop.h"
 #include "operators/ops.h"
 #include "operators/ops_hashmap.h"
@@ -379,6 +382,20 @@ namespace sim
                 rt.__logmsg(logmessage::runtime::ErrorMessage(in.diag_info(), "INJECTED", "fault@" + std::to_string(g->instr)));
             }
         }
+        if (!g->obs_ops.empty())
+        {
+            std::string_view name;
+            if (auto u = dynamic_cast<sqf::opcodes::call_unary*>(&in)) name = u->operator_name();
+            else if (auto b = dynamic_cast<sqf::opcodes::call_binary*>(&in)) name = b->operator_name();
+            else if (auto n = dynamic_cast<sqf::opcodes::call_nular*>(&in)) name = n->operator_name();
+            if (!name.empty() && g->obs_ops.count(std::string(name)))
+            {
+                auto act = rt.context_active_as_shared();
+                std::string top = "<none>";
+                if (act && act->values_size() > 0) top = render(act->peek_value());
+                g->ev({ "op", vm->id, g->ctx_id(rt, act.get()), std::string(name), top, g->instr, g->clock_ns });
+            }
+        }
         if (g->obs_stack) stackmon_after(rt, in);
     }
     static void h_frame_done(runtime& rt)
@@ -413,7 +430,7 @@ namespace sim
         rt.register_sqfop(unary("t__", t_any(), "trace marker", [](runtime& r, value::cref right) -> value {
             auto vm = g->vm_of(r);
             auto act = r.context_active_as_shared();
-            g->ev({ "t", vm->id, g->ctx_id(r, act.get()), render(right), g->instr });
+            g->ev({ "t", vm->id, g->ctx_id(r, act.get()), render(right), g->instr, g->clock_ns });
             return {};
         }));
         rt.register_sqfop(nular("fault__", "raises an error-level diagnostic", [](runtime& r) -> value {
@@ -687,6 +704,7 @@ namespace sim
             g->obs_stack = o.value("stack", false);
             g->obs_visits = o.value("visits", true);
             g->obs_slices = o.value("slices", true);
+            if (o.contains("ops")) for (auto& x : o["ops"]) g->obs_ops.insert(x.get<std::string>());
         }
         if (p.contains("rand_seed")) g->rand_state = p["rand_seed"].get<uint64_t>() * 2 + 1;
         install_hooks();
